@@ -132,7 +132,8 @@ func c19mConfig(c *c19mCell) (*Config, error) {
 		return NewConfig(file)
 	}
 	programmatic := func(cfg *Config) {
-		cfg.Host = "127.0.0.1"
+		cfg.Listen = HostPort{Host: "127.0.0.1", Port: 0}
+		cfg.Host = n.AdvHost
 		cfg.Port = 0
 		cfg.DataDir = c.dataDir
 		cfg.NATS.Servers = []string{c.natsURL}
@@ -320,6 +321,8 @@ func TestVerifC19Matrix(t *testing.T) {
 	rep.Assume("spelling: the documentation shows only `false`.  The other spellings are the closed set 'false literal of Go's ParseBool or of YAML 1.1 booleans, bare or quoted' plus the word `disabled`; every one of them (indeed every value that is not a true literal) switches telemetry off on the tree this check was built on, through every route.  A tree that REFUSES such a value with a configuration error is not judged (counted); one that starts and reports although the operator wrote an 'off' value is")
 	rep.Assume("phase B demands nothing about WHETHER a server with an unusable instance-id file reports (staying off is what the unchanged code does); it only demands that whatever is sent identifies the installation by a random UUID and carries no operator-chosen name.  Telemetry ON is never combined with a non-positive interval (time.NewTicker would panic; not this property's subject)")
 	rep.Assume("the process runs as uid 0 in the sandbox, so a read-only data directory cannot be produced with permissions; the unusable states used are independent of the uid")
+
+	defer c19PlantEnv(rep)()
 
 	rec := &kit.C19Recorder{}
 	oldTransport := http.DefaultTransport
